@@ -24,13 +24,19 @@ def generate():
 
 
 # ----------------------------------------------------------------------------------------------------------------------
-# Known_C09 site predicate: a comment directly BEFORE token `next` (with `prev` the token before it).
-# Comments are handed to the production that consumes `next`; the positions below are those whose production discards
-# the list or stores it in a slot the printer never prints (found by the monitor on the pinned tree, grouped by token).
+# Class predicates of the OPEN C09 findings.  A site is a comment directly BEFORE token `nxt` (`prev` = the token before
+# it); `x` carries the syntactic context computed from the UNINJECTED text by the real parser (vh fmt-run inject):
+#   encl_open / encl_prev : innermost bracket open at the site and the token before that bracket
+#   encl_expr_list        : that bracket opens call arguments or a tuple expression
+#   next_is_type          : `nxt` starts a type annotation
+# The comment lists are handed to the production that consumes `nxt`; the positions below are those whose production
+# discards the list or stores it in a slot the printer never prints.  Repaired by 592ecfc and therefore NOT in the
+# class any more: before `=`, before `->`, before `:`, before `,` inside call arguments, before a type name.
 
 OPERATOR_LIKE = {',', '*', '=', '!', '==', '!=', '/', '%', '+', '-', '||', '&&', '->', '<', '<=', '>', '>=', '::', '(', 'if', 'match',
                  'else', '{', ';', ':'}
 EXPR_END = {'int', 'string', 'lower-id', 'upper-id', 'true', 'false', 'this', ')', '}'}
+CALLEE_END = {'lower-id', 'upper-id', ')', '>', 'this', '}'}
 
 
 def sig(tok):
@@ -39,36 +45,57 @@ def sig(tok):
     return tok[1] if tok[0] in ('operator', 'keyword') else tok[0]
 
 
-def known_lost_site(prev, nxt):
-    if nxt in (',', '->', '=', ':', 'as', '|', 'else', '>', ';', 'val'):
-        return True
+def in_call_arguments(x):
+    return bool(x.get('encl_expr_list')) and sig(x.get('encl_prev')) in CALLEE_END
+
+
+def known_lost_site(prev, nxt, x):
+    """C09-comments-dropped"""
+    if nxt in ('=', '->', ':'):
+        return False                                  # kept (592ecfc and the productions that always stored them)
+    if nxt == ',':
+        if x.get('encl_expr_list'):
+            # call arguments: kept.  Tuple of identifiers `(a, b, ...`: the parser's look-ahead path turns the ids into
+            # LocalId nodes without their comments
+            return prev == 'lower-id' and not in_call_arguments(x)
+        return True                                   # patterns, struct fields, variants, imports, type parameters
+    if nxt == 'upper-id':
+        if x.get('next_is_type'):
+            return False                              # 592ecfc
+        return prev in ('{', 'class', ',', '(', 'interface', 'private', '|')
+    if nxt == 'lower-id':
+        if prev in ('val', 'method', 'function', 'as', '>', '{'):
+            return True
+        if prev in (',', '('):
+            return not in_call_arguments(x)           # `( id ...` look-ahead paths, lambda parameters, pattern fields
+        return False
     if nxt == '<':
         return prev in ('function', 'method', 'upper-id')
+    if nxt in ('>', 'else', 'val', 'as', '|', ';'):
+        return True
     if nxt == 'if':
         return prev == 'else'
-    if nxt == 'lower-id':
-        return prev in ('val', 'method', 'function', '{', ',', '(', '>', 'as')
     if nxt == 'private':
         return prev in ('(', ',')
-    if nxt == 'upper-id':
-        return prev in ('{', 'class', ',', '(', 'interface', ':', '<', '->', 'private', '|')
     if nxt == '{':
         return prev in EXPR_END or prev == 'else'
     if nxt == '(':
-        return prev in OPERATOR_LIKE
+        return prev in OPERATOR_LIKE                  # parenthesised single expression
     if nxt == ')':
-        return prev in EXPR_END
-    if nxt in ('_',):
-        return prev in (',', '(')
+        return prev in EXPR_END and not x.get('encl_expr_list')
     return False
 
 
-def known_order_site(prev, nxt):
+def known_order_site(prev, nxt, x):
+    """C09-comments-reordered: the comment list of `;` / `}` is prepended to the block's own comments"""
     return nxt in (';', '}')
 
 
-def known_idem_site(prev, nxt):
-    return nxt == '}'
+def known_idem_site(prev, nxt, x):
+    """C09-not-idempotent-with-comments: before the closing `}` of a block; and before `=`, `->`, `,` where the parser
+    re-attaches the comment to the expression that follows, so that it is printed behind the token and is attached to
+    another node (or sits at a known_lost_site) when the output is parsed again"""
+    return nxt in ('}', '=', '->', ',')
 
 
 # ----------------------------------------------------------------------------------------------------------------------
@@ -99,10 +126,38 @@ def normalised(text):
     return all(w != '' and not any(c.isspace() for c in w) for w in ws) and not text.startswith('*') and '*/' not in text
 
 
+def star_text(kind, text):
+    """C09-comment-text-changed: a block or doc comment whose text starts with `*`"""
+    return kind in ('KBlock', 'KDoc', 'block-comment', 'doc-comment') and text.startswith('*')
+
+
+def long_line_comment(kind, text, width):
+    """C09-not-idempotent-with-comments, second clause: a line comment that cannot fit the width (8 = room for indentation)"""
+    return kind in ('KLine', 'line-comment') and len(text) + 3 + 8 > width
+
+
+def module_classes(sites, width):
+    """open classes that some comment of a module falls into (sites: vh fmt-run comment-sites)"""
+    out = set()
+    for x in sites:
+        prev, nxt = sig(x['prev']), sig(x['next'])
+        if known_lost_site(prev, nxt, x):
+            out.add(ID_LOST)
+        if known_order_site(prev, nxt, x):
+            out.add(ID_ORDER)
+        if known_idem_site(prev, nxt, x) or long_line_comment(x['kind'], x['text'], width):
+            out.add(ID_IDEM)
+        if star_text(x['kind'], x['text']):
+            out.add(ID_TEXT)
+            out.add(ID_IDEM)
+    return out
+
+
 def report(ck, kid, what, input_, expected=None, observed=None):
-    registered = any(k['id'] == kid for k in ck.known)
-    ck.property_failure('[%s] %s' % (kid, what), input_, expected, observed, how='./check C09 --replay <this file>',
-                        klass=kid if registered else None)
+    """a failure that the class predicate puts into OPEN class `kid`"""
+    is_open = any(k['id'] == kid and k['status'] == 'open' for k in ck.known)
+    ck.property_failure(('[%s] ' % kid if is_open else '') + what, input_, expected, observed, how='./check C09 --replay <this file>',
+                        klass=kid if is_open else None)
 
 
 def layer_b_comments(ck, rng, n):
@@ -143,11 +198,18 @@ def layer_b_comments(ck, rng, n):
             for w, out, comments, others in o:
                 back = ' '.join(c for c in comments if c != '')
                 if others or back != text:
-                    report(ck, ID_TEXT, 'comment text read back differently after rendering at width %d' % w,
-                           {'kind': k, 'text': text, 'width': w}, text, {'rendered': out, 'comments': comments})
+                    ck.property_failure('comment text read back differently after rendering at width %d' % w,
+                                        {'kind': k, 'text': text, 'width': w}, text, {'rendered': out, 'comments': comments})
                     break
                 if k == 'KLine' and '' in comments:
-                    ck.count('wrapped line comments that leave an empty `//` line (not idempotent)')
+                    ck.count('wrapped line comments that leave an empty `//` line (class C09-not-idempotent-with-comments)')
+        elif star_text(k, text):
+            # C09-comment-text-changed: block / doc comment text that starts with `*`
+            w, out, comments, others = o[-1]
+            if comments != [text]:
+                ck.count('block comment texts starting with * that lose a star')
+                report(ck, ID_TEXT, 'block comment text starting with `*` is read back differently', {'kind': k, 'text': text, 'width': w},
+                       text, {'rendered': out, 'comments': comments})
     ck.count('comment documents', len(full))
     ck.count('comment documents whose rendering depends on the width', sum(1 for _, _, o in full if len({x[1] for x in o}) > 1))
 
@@ -199,33 +261,37 @@ def layer_b_handout(ck, rng, n):
 # ----------------------------------------------------------------------------------------------------------------------
 
 def monitor_twice(ck, mods, tag):
-    """format twice, byte for byte; comment inventory before / after; parser store vs lexer"""
+    """format twice, byte for byte; comment inventory before / after; parser store vs lexer.  A failure is put into an open
+    class only if some comment of the module sits at a site of that class (module_classes)."""
     res = run_vh('module', [{'id': i, 'text': t, 'widths': [100, 40], 'name': 'Test'} for i, (_, t) in enumerate(mods)], timeout=2400)
-    for (label, text), r in zip(mods, res):
+    sites = run_vh('comment-sites', [{'id': i, 'text': t} for i, (_, t) in enumerate(mods)], timeout=2400)
+    for (label, text), r, sr in zip(mods, res, sites):
         if r.get('errors', 1) != 0 or 'out' not in r:
             ck.count(tag + ': not syntactically valid (skipped)')
             continue
         ck.count(tag + ': formatted twice')
         ck.case({'module': text}, nontrivial=bool(r['comments']))
+
+        def fail(kid, what, width):
+            inp = {'module': text, 'width': width, 'label': label}
+            if kid in module_classes(sr.get('comments', []), width):
+                ck.count(tag + ': module-level failure in an open class')
+                report(ck, kid, what, inp)
+            else:
+                ck.property_failure(what, inp, how='./check C09 --replay <this file>')
         if r['ast_comments'] < len(r['comments']):
-            report(ck, ID_LOST, 'the parser discarded %d of %d comments (comment store vs lexer)' % (
-                len(r['comments']) - r['ast_comments'], len(r['comments'])), {'module': text, 'label': label})
+            fail(ID_LOST, 'the parser discarded %d of %d comments (comment store vs lexer)' % (
+                len(r['comments']) - r['ast_comments'], len(r['comments'])), 100)
         for o in r['out']:
             if o.get('reparse_errors', 0) > 0 or 'print_panic' in o or not o.get('same_tree', True):
                 ck.count(tag + ': output not read back as the same tree (C08), idempotence not judged')
                 continue        # C08's business
-            if not o.get('idempotent', True):
-                has_comments = bool(r['comments'])
-                if has_comments:
-                    report(ck, ID_IDEM, 'format(format(x)) != format(x) at width %d: %s' % (o['width'], json.dumps(o.get('idem_diff'))[:200]),
-                           {'module': text, 'width': o['width'], 'label': label})
-                else:
-                    ck.property_failure('format(format(x)) != format(x) at width %d on a module without comments: %s' % (
-                        o['width'], json.dumps(o.get('idem_diff'))[:200]), {'module': text, 'width': o['width'], 'label': label})
-                break
             a, b = sorted(map(json.dumps, r['comments'])), sorted(map(json.dumps, o['comments']))
             if a != b and o['width'] == 100:
-                report(ck, ID_LOST, 'comments before/after differ (%d -> %d)' % (len(a), len(b)), {'module': text, 'width': 100, 'label': label})
+                fail(ID_LOST, 'comments before/after differ (%d -> %d)' % (len(a), len(b)), 100)
+                break
+            if not o.get('idempotent', True):
+                fail(ID_IDEM, 'format(format(x)) != format(x) at width %d: %s' % (o['width'], json.dumps(o.get('idem_diff'))[:200]), o['width'])
                 break
 
 
@@ -255,19 +321,19 @@ def monitor_inject(ck, rng, mods, budget, tag):
             ck.count(tag + ': injections')
             inp = {'module': job['text'], 'site': x['site'], 'prev': prev, 'next': nxt, 'label': job['label']}
             if not x['present'] or x['others_lost']:
-                if known_lost_site(prev, nxt):
+                if known_lost_site(prev, nxt, x):
                     ck.count(tag + ': comment dropped at a known position')
                     report(ck, ID_LOST, 'comment before `%s` (after `%s`) is dropped' % (nxt, prev), inp)
                 else:
                     ck.property_failure('comment before `%s` (after `%s`) is dropped (position outside the known class)' % (nxt, prev), inp)
             elif not x['same_sequence']:
-                if known_order_site(prev, nxt):
+                if known_order_site(prev, nxt, x):
                     ck.count(tag + ': comment reordered at a known position')
                     report(ck, ID_ORDER, 'comment before `%s` (after `%s`) changes its place among the comments' % (nxt, prev), inp)
                 else:
                     ck.property_failure('comment before `%s` (after `%s`) changes its place among the comments' % (nxt, prev), inp)
             elif x.get('reparse_errors', 0) == 0 and x.get('same_tree', True) and not x.get('idempotent', True):
-                if known_idem_site(prev, nxt):
+                if known_idem_site(prev, nxt, x):
                     ck.count(tag + ': not idempotent at a known position')
                     report(ck, ID_IDEM, 'with a comment before `%s` (after `%s`) format(format(x)) != format(x)' % (nxt, prev), inp)
                 else:
@@ -276,13 +342,38 @@ def monitor_inject(ck, rng, mods, budget, tag):
                 ck.count(tag + ': comment kept, order kept, idempotent')
 
 
-WITNESSES = [
-    (ID_LOST, 'paren', 'class Main {\n  function main(): int = (/* c */ x + 1)\n}\n'),
-    (ID_LOST, 'before =', 'class Main {\n  function main(): int /* c */ = 1\n}\n'),
-    (ID_LOST, 'before type name', 'class Main {\n  function main(x: /* c */ Foo): int = 1\n}\n'),
-    (ID_IDEM, 'long line comment', 'class Main {\n  // ' + 'x' * 120 + '\n  function main(): int = 1\n}\n'),
-    (ID_TEXT, 'block comment text starting with *', 'class Main {\n  /* **a */\n  function main(): int = 1\n}\n'),
-]
+# witnesses replayed on every run: the corpus file registered in known_findings.json, except where a sharper one is given here
+OWN_WITNESS = {
+    ID_ORDER: 'class Main {\n  function main(): int = { /* a */ let x = 1; f(x) /* b */; 2 }\n}\n',
+}
+
+
+def comment_fails(r):
+    """does formatting lose, reorder or destabilise the comments of result r?  -> (bool, detail)"""
+    if r.get('errors', 0) > 0 or not r.get('out'):
+        return False, 'the witness is no longer a syntactically valid input'
+    o = r['out'][0]
+    if r['comments'] != o.get('comments'):
+        return True, 'comments %s -> %s' % (json.dumps(r['comments'])[:120], json.dumps(o.get('comments'))[:120])
+    if not o.get('idempotent', True):
+        return True, 'format(format(x)) != format(x): ' + json.dumps(o.get('idem_diff'))[:160]
+    return False, 'comments kept in order, formatting idempotent'
+
+
+def replay_witnesses(ck):
+    todo = []
+    for k in ck.known:
+        text = OWN_WITNESS.get(k['id']) if k['status'] == 'open' else None
+        path = os.path.join('/verif', k.get('witness') or '')
+        if text is None and k.get('witness') and os.path.exists(path):
+            text = open(path).read()
+        if text is not None:
+            todo.append((k, text))
+    res = run_vh('module', [{'id': k['id'], 'text': t, 'widths': [100]} for k, t in todo]) if todo else []
+    for (k, _), r in zip(todo, res):
+        still, detail = comment_fails(r)
+        ck.known_witness(k['id'], still, detail)
+        ck.count('witness %s (%s): %s' % (k['id'], k['status'], 'fails' if still else 'passes'))
 
 
 def run(tier, seed, replay=None):
@@ -328,19 +419,10 @@ def run(tier, seed, replay=None):
     layer_b_comments(ck, rng.fork(), 300 if quick else 3000)
     layer_b_handout(ck, rng.fork(), 200 if quick else 2000)
 
-    for kid, name, text in WITNESSES:
-        r = run_vh('module', [{'id': 0, 'text': text, 'widths': [100]}])[0]
-        o = r['out'][0] if r.get('out') else {}
-        still = bool(o) and (not o.get('idempotent', True) or sorted(map(json.dumps, r['comments'])) != sorted(map(json.dumps, o.get('comments', []))))
-        if any(k['id'] == kid for k in ck.known):
-            ck.known_witness(kid, still, name)
-        elif still:
-            report(ck, kid, 'witness (%s)' % name, {'module': text, 'width': 100})
-        else:
-            ck.notes.append('witness %s (%s) no longer fails' % (kid, name))
+    replay_witnesses(ck)
 
     mrng = rng.fork()
-    gen = [('generated', exprs.gen_module(mrng.fork(), 2 + i % 3, avoid={'K4', 'K7'})) for i in range(400 if quick else 2000)]
+    gen = [('generated', exprs.gen_module(mrng.fork(), 2 + i % 3, avoid={'K7'})) for i in range(400 if quick else 2000)]
     samples = [(os.path.relpath(f, '/repo'), open(f).read()) for f in sorted(glob.glob('/repo/tests/*.sam')) + sorted(glob.glob('/repo/std/*.sam'))]
     monitor_twice(ck, gen, 'generated modules')
     monitor_twice(ck, samples, 'tests/ and std/')
